@@ -271,6 +271,7 @@ impl<'tcx, 'a> Cx<'tcx, 'a> {
                     v.push(("promoted", J::Num(p.as_usize() as i128)));
                     // names referenced by the promoted body
                     let mut refs = Vec::new();
+                    let mut dbg = Vec::new();
                     if let Some(l) = uv.def.as_local() {
                         let proms = tcx.promoted_mir(l.to_def_id());
                         if let Some(pb) = proms.get(p) {
@@ -278,12 +279,14 @@ impl<'tcx, 'a> Cx<'tcx, 'a> {
                                 for st in bb.statements.iter() {
                                     if let StatementKind::Assign(b) = &st.kind {
                                         collect_const_defs(tcx, &b.1, &mut refs);
+                                        dbg.push(s(format!("{:?}", b.1)));
                                     }
                                 }
                             }
                         }
                     }
                     v.push(("promoted_refs", J::Arr(refs.into_iter().map(s).collect())));
+                    v.push(("promoted_dbg", J::Arr(dbg)));
                 }
             }
             Const::Ty(_, ct) => {
